@@ -116,14 +116,23 @@ func checkEntries(t h.TB, c EntryCase) {
 			})
 		}
 		leadsOut := false
-		ast.Inspect(root, func(n ast.Node) bool {
-			if id, ok := n.(*ast.Ident); ok && id.Obj != nil {
-				if d, ok := id.Obj.Decl.(ast.Node); ok && ancestors[d] {
-					leadsOut = true
+		seen := map[ast.Node]bool{}
+		var follow func(n ast.Node)
+		follow = func(n ast.Node) {
+			ast.Inspect(n, func(m ast.Node) bool {
+				if id, ok := m.(*ast.Ident); ok && id.Obj != nil {
+					if d, ok := id.Obj.Decl.(ast.Node); ok && !seen[d] {
+						seen[d] = true
+						if ancestors[d] {
+							leadsOut = true
+						}
+						follow(d) // (transitively: x in "func f(a [len(x)]T)" may be declared as "x = f()")
+					}
 				}
-			}
-			return true
-		})
+				return !leadsOut
+			})
+		}
+		follow(root)
 		if leadsOut {
 			h.Exclude("an object link of the isolated subtree leads to a declaration that contains it")
 			return
